@@ -376,7 +376,16 @@ func (t *Term) printRune(r rune) {
 		prev := s.Cells[t.lastR][t.lastC]
 		comb := prev.G + string(r)
 		pcs := Layout(p, comb)
-		if len(pcs) == 1 || (len(pcs) == 2 && pcs[1].W == 0 && p != PUnicode) {
+		extends := len(pcs) == 1
+		if !extends && p != PUnicode {
+			extends = true
+			for _, pc := range pcs[1:] {
+				if pc.W != 0 {
+					extends = false
+				}
+			}
+		}
+		if extends {
 			w := pcs[0].W
 			if w < 1 {
 				w = 1
